@@ -16,9 +16,12 @@ Responders == {"delegated", "ca", "unrelated"}
 \* a response may carry several SingleResponses: besides the entry described by (status, about) a second entry saying
 \* "good" about the OTHER certificate, before or after it
 Batches == {"single", "other-good-first", "other-good-last"}
-VARIABLES status, about, responder, batch
-vars == <<status, about, responder, batch>>
-Init == status \in Statuses /\ about \in Abouts /\ responder \in Responders /\ batch \in Batches
+\* what the signature carries in its x5chain besides the signing certificate: its issuer, or its issuer and the root
+\* (both are conforming; the root is the only configured anchor either way)
+Chains == {"issuer", "issuer+root"}
+VARIABLES status, about, responder, batch, chain
+vars == <<status, about, responder, batch, chain>>
+Init == status \in Statuses /\ about \in Abouts /\ responder \in Responders /\ batch \in Batches /\ chain \in Chains
 Next == UNCHANGED vars
 Spec == Init /\ [][Next]_vars
 Binds == about = "signing" /\ responder \in {"delegated", "ca"}
@@ -27,6 +30,8 @@ Verdict == IF Binds /\ status = "revoked" THEN "not-valid" ELSE Baseline
 RevokedNeverValid == (Binds /\ status = "revoked") => Verdict = "not-valid"
 ForeignIgnored == ~Binds => Verdict = Baseline
 GoodKeeps == (Binds /\ status = "good") => Verdict = Baseline
+\* the verdict is a function of (Binds, status) alone: the form of the x5chain and the batching play no part
+ChainIrrelevant == Verdict = (IF Binds /\ status = "revoked" THEN "not-valid" ELSE Baseline)
 \* an entry about another certificate never vouches for the signing certificate, wherever it stands in the response
 BatchIrrelevant == Verdict = (IF Binds /\ status = "revoked" THEN "not-valid" ELSE Baseline)
 =============================================================================
